@@ -548,6 +548,31 @@ fn const_j<'tcx>(tcx: TyCtxt<'tcx>, owner: DefId, c: &Const<'tcx>) -> J {
             if let Some(b) = alloc_bytes(tcx, prov.alloc_id(), off.bytes()) {
                 o.set("mem", b);
             }
+            // pointers stored inside the pointed-to memory (e.g. a promoted `&&str`): one level of pointee bytes
+            if let Some(rustc_middle::mir::interpret::GlobalAlloc::Memory(a)) = tcx.try_get_global_alloc(prov.alloc_id()) {
+                let mut ptrs = Vec::new();
+                for (poff, pprov) in a.inner().provenance().ptrs().iter() {
+                    if poff.bytes() < off.bytes() || ptrs.len() >= 8 {
+                        continue;
+                    }
+                    // the stored address = base of the target allocation + the offset written in the bytes
+                    let lo = poff.bytes() as usize;
+                    let raw = a.inner().inspect_with_uninit_and_ptr_outside_interpreter(lo..lo + 8);
+                    let mut rel = 0u64;
+                    for (i, b) in raw.iter().enumerate() {
+                        rel |= (*b as u64) << (8 * i);
+                    }
+                    if let Some(b) = alloc_bytes_n(tcx, pprov.alloc_id(), rel, 128) {
+                        let mut e = J::obj();
+                        e.set("off", J::n((poff.bytes() - off.bytes()) as i128));
+                        e.set("mem", b);
+                        ptrs.push(e);
+                    }
+                }
+                if !ptrs.is_empty() {
+                    o.set("ptrs", J::Arr(ptrs));
+                }
+            }
             // address of a static / function
             match tcx.try_get_global_alloc(prov.alloc_id()) {
                 Some(rustc_middle::mir::interpret::GlobalAlloc::Static(did)) => {
